@@ -2,7 +2,8 @@
 
 Rig B: 3 real `rnacos` processes (procrig.Cluster), small RNACOS_RAFT_SNAPSHOT_LOG_SIZE so that compaction happens during the run,
 12 concurrent clients (3 gRPC + 9 HTTP, three of them pinned to one node each; through leader and followers), a seeded nemesis (kill -9 / restart, SIGSTOP / SIGCONT of the
-leader, of one follower, of both followers, kill of the leader while the followers are stopped), a metrics poller per node
+leader, of one follower, of both followers, kill of the leader while the followers are stopped; directed node-to-node links held and released:
+the leader's links to both followers, the leader's link to one follower, one follower's link to the leader), a metrics poller per node
 (/nacos/v1/raft/metrics every 0.1 s: role / term / leader time line).  Every client call is recorded at the client boundary
 {i, proc, op, key, value, node, via, t_call, t_ret, res} with one monotonic clock; res = ok (acknowledged) | fail (answered with an
 error) | indet (time-out / connection error).  Only `ok` operations bind the oracle; everything else stays open for ever.
@@ -377,10 +378,13 @@ class ClusterRun:
             S.append(("kill-leader", rnd.uniform(2.0, 5.0)) if "kill" in first_change else ("stop-leader", rnd.uniform(5.5, 8.0)))
         S.append(("pause", rnd.uniform(3.0, 5.0)))
         # regime 2: after the first leader change
-        kinds = ["stop-leader", "stop-followers", "kill-leader", "kill-follower", "restart-follower", "stop-follower", "stop-leader", "stop-followers"]
+        kinds = ["stop-leader", "stop-followers", "kill-leader", "kill-follower", "restart-follower", "stop-follower", "stop-leader", "stop-followers",
+                 "stall-leader-out", "stall-follower-link", "stall-follower-requests"]
         rnd.shuffle(kinds)
         for k in kinds:
-            if k == "stop-leader":
+            if k.startswith("stall-"):
+                S.append((k, rnd.uniform(3.0, 6.5)))
+            elif k == "stop-leader":
                 S.append((k, rnd.uniform(3.0, 8.0)))
             elif k == "stop-followers":
                 S.append((k, rnd.uniform(3.0, 6.0), rnd.random() < 0.35))
@@ -441,6 +445,29 @@ class ClusterRun:
                 self.rec.event("kill", v.id)
                 self.start_node(v)
                 self.fault("follower-restarted", [v.id], role_of([v]), t0, now())
+        elif kind.startswith("stall-") and self.cluster.fabric is not None:
+            # one or two directed node-to-node links are held and then released (bytes delayed, never dropped): leader changes
+            # without any process fault, appends / votes / forwarded writes delivered late
+            fab = self.cluster.fabric
+            if kind == "stall-leader-out":          # the leader's requests reach no follower (and the answers to them are held too)
+                links, victims, fk = [(leader.id, v.id) for v in followers], followers, "leader-links-stalled"
+            elif kind == "stall-follower-link":     # one follower hears nothing from the leader: it starts elections with higher terms
+                v = rnd.choice(followers)
+                links, victims, fk = [(leader.id, v.id)], [v], "follower-link-stalled"
+            else:                                   # what one follower sends to the leader (forwarded writes, votes) arrives late
+                v = rnd.choice(followers)
+                links, victims, fk = [(v.id, leader.id)], [v], "follower-requests-stalled"
+            t0 = now()
+            try:
+                for a, b in links:
+                    fab.stall(a, b)
+                self.rec.event("link-stall:%s" % ",".join("%d>%d" % l for l in links), leader.id)
+                time.sleep(step[1])
+            finally:
+                for a, b in links:
+                    fab.release(a, b)
+            self.rec.event("link-release:%s" % ",".join("%d>%d" % l for l in links), leader.id)
+            self.fault(fk, [x.id for x in victims], role_of(victims), t0, now(), links=links, leader=leader.id)
         elif kind == "stop-followers":
             t0 = now()
             for v in followers:
@@ -554,7 +581,7 @@ class ClusterRun:
     # ---- the whole run
     def run(self):
         env = {"RNACOS_RAFT_SNAPSHOT_LOG_SIZE": str(self.snap), "RUST_LOG": "warn,rnacos::raft=info", "RNACOS_HTTP_WORKERS": "2"}
-        self.cluster = procrig.Cluster(self.wd, 3, env=env)
+        self.cluster = procrig.Cluster(self.wd, 3, env=env, fabric=True)
         threads = []
         hist = {"name": self.name, "seed": self.seed, "snap": self.snap, "passes": []}
         try:
@@ -586,6 +613,9 @@ class ClusterRun:
             if any(t.is_alive() for t in threads):
                 raise Inconclusive("a client thread did not end")
             # ---- heal
+            if self.cluster.fabric is not None:
+                self.cluster.fabric.release()
+                hist["link_fabric"] = self.cluster.fabric.stats
             for nd in self.cluster.nodes:
                 if nd.alive():
                     nd.sigcont()
@@ -695,7 +725,8 @@ def acker_of(hist, op):
     return yes, ("changed" if contrary else "held"), leader
 
 
-FAULT_PRIO = ["leader-killed-while-followers-stopped", "followers-stopped", "leader-stopped", "leader-killed", "follower-killed", "follower-restarted", "follower-stopped"]
+FAULT_PRIO = ["leader-killed-while-followers-stopped", "followers-stopped", "leader-stopped", "leader-killed", "leader-links-stalled", "follower-killed", "follower-restarted",
+              "follower-stopped", "follower-link-stalled", "follower-requests-stalled"]
 
 
 def near_fault(hist, op):
@@ -720,7 +751,9 @@ def near_fault(hist, op):
 
 
 FAULT_CLASS = {"leader-killed-while-followers-stopped": "leader", "leader-stopped": "leader", "leader-killed": "leader", "followers-stopped": "followers",
-               "follower-stopped": "follower", "follower-killed": "follower", "follower-restarted": "follower", "none": "none"}
+               "follower-stopped": "follower", "follower-killed": "follower", "follower-restarted": "follower", "none": "none",
+               # link stalls are classed by the role of the node they cut off (the exact kind is in the witness)
+               "leader-links-stalled": "leader", "follower-link-stalled": "follower", "follower-requests-stalled": "follower"}
 
 
 def lost_sig(hist, op, symptom="acked-write-lost"):
@@ -737,10 +770,11 @@ def no_quorum_acks(hist):
     out = {"acked": [], "waited": {"bootstrap-leader": 0, "elected-leader": 0}}
     events = hist.get("events") or []
     for f in hist["faults"]:
-        if f["kind"] != "followers-stopped":
+        if f["kind"] not in ("followers-stopped", "leader-links-stalled"):
             continue
         leader = ({1, 2, 3} - set(f["victims"])).pop()
-        conts = [e[0] for e in events if e[1] == "sigcont" and e[2] in f["victims"] and e[0] >= f["t0"]]
+        # links held: nothing the leader sends reaches a follower before the release (f.t1), so no quorum can answer before it
+        conts = [e[0] for e in events if e[1] == "sigcont" and e[2] in f["victims"] and e[0] >= f["t0"]] if f["kind"] == "followers-stopped" else []
         kills = [e[0] for e in events if e[1] == "kill" and e[2] == leader and e[0] >= f["t0"]]
         t_end = min(conts + [f["t1"]])
         for o in hist["ops"]:
@@ -985,7 +1019,7 @@ def single_node_case(wd, name, seed, preload):
 
 # ------------------------------------------------------------------------------------------------------------------ driver
 RULE = ("per cluster: 3 real nodes, snapshot threshold {40,400}, %d clients (%d gRPC) publishing unique values / removing / reading through random nodes, "
-        "a seeded nemesis schedule with faults before and after the first leader change; history recorded at the client boundary with one monotonic "
+        "a seeded nemesis schedule (kill -9, SIGSTOP, restart, directed links held and released) with faults before and after the first leader change; history recorded at the client boundary with one monotonic "
         "clock + role/term time line; heal; convergence wait (bound %ds); final contents and change histories of every key from every node; offline "
         "oracle clauses (1)-(5) of DESIGN.md C06. evaluations = client operations (+ single-node early publishes). distinct_nontrivial = distinct "
         "(fault kind, victim role just before it, client writes in flight at that moment yes/no) that really happened" % (N_CLIENTS, N_GRPC_CLIENTS, int(B)))
@@ -1050,7 +1084,8 @@ def absorb(out, hist):
             "terms_seen": [min(terms), max(terms)] if terms else None, "compactions_per_node": hist.get("compactions"),
             "passes": [{"pass": p["pass"], "converged_after_s": p["converged_after_s"] and round(p["converged_after_s"], 1), "reason": p["not_converged_reason"],
                         "snapshot_installed_during_run": p["snapshot_installed_during_run"]} for p in hist["passes"]],
-            "violation_signatures": sorted({s for s, _ in V}), "fatal_log_lines": hist.get("fatal_log_lines"), "notes": hist.get("notes")}
+            "violation_signatures": sorted({s for s, _ in V}), "fatal_log_lines": hist.get("fatal_log_lines"), "notes": hist.get("notes"),
+            "link_fabric": {k: (hist.get("link_fabric") or {}).get(k) for k in ("connections", "connections_held", "bytes_held_released", "unknown_source", "by_link")}}
     out.extra.setdefault("clusters", []).append(summ)
     if len(out.samples) < 4:
         out.samples.append({"cluster": hist["name"], "some_ops": ops[100:104], "a_fault": hist["faults"][:2]})
@@ -1104,7 +1139,7 @@ def run(tier, seed):
             "operations answered with an error, timed out or cut by a connection error are indeterminate for ever (may take effect at any later time)",
             "t_call/t_ret are taken in the driver around the whole client call (for gRPC around the child-process round trip): intervals are never narrower than the real ones",
             "B = 30 s counted from the moment all nodes are resumed/restarted and all clients have ended",
-            "no network partitions between live processes (SIGSTOP approximates an isolated node)",
+            "node-to-node traffic runs through a byte-preserving forwarder (lib/linkproxy.py); directed links are held 3-6.5 s and released (delay, never loss): leader changes without a process fault, late delivery of appends / votes / forwarded writes; lossy partitions are not simulated",
             "a node that received an InstallSnapshot stream during the run is compared with the others under its own signature (C08's root cause) and left out of the other clauses",
         ]
         out.min_nontrivial = 6 if tier == "quick" else 12
